@@ -45,6 +45,16 @@ fn check(case: &DecCase, p: &mut Probe) -> Check {
         let mut dec = build_factory(&imp, hs.clone());
         let res = guarded(|| dec.decode(&llrs, case.limit)).map_err(|e| Fail::new("panic", format!("{name}: decode panicked: {e}")))?;
         check_one(&name, &res, &case.h, &llrs, case.limit)?;
+        // the statement holds for every call, not only the first one on an object: a third of the decodes
+        // are followed by a second call on the same decoder (the same frame under another limit), whose
+        // result is judged by the same clauses
+        if (case.limit + case.llrs.len() + name.len()) % 3 == 1 {
+            let lim2 = [1usize, 3, 0, 7][(case.llrs.len() + name.len()) % 4];
+            let r2 = guarded(|| dec.decode(&llrs, lim2)).map_err(|e| Fail::new("panic", format!("{name}: second decode on the same object panicked: {e}")))?;
+            check_one(&format!("{name} (second call on the object, after {})", if res.is_ok() { "a success" } else { "a failure" }), &r2, &case.h, &llrs, lim2)?;
+            p.class("second-call-on-the-same-decoder");
+            p.inner += 1;
+        }
         // "every iteration limit": a frame that converges after i >= 1 iterations converges identically
         // under any larger limit, however large (the limit only bounds the loop); tried on a quarter
         // of the converged decodes with limits up to usize::MAX, on a fresh decoder
@@ -85,7 +95,7 @@ pub fn property() -> Property {
         subs: vec![
             Box::new(Sub {
                 name: "validity",
-                rule: "all names from DecoderImplementation::value_variants() x generated (H, LLR, limit): H 1..=8 x 2..=14 (thorough sub-check 'large' up to 40x120) with every row weight >= 2 in six classes (sparse, one dense row, duplicate rows, columns shared by all rows = high degree, medium, any); LLR vectors by class (free components incl. the special catalogue: +-0, subnormal, 1e-30, 1e30, 8-bit rounding boundaries +-1ulp, 12.5, 14.5, 15.875; noisy codeword of H from an own null-space basis; exact codeword; all-special; punctured zero block; extremes); limit in {0,1,2,3,5,10,30,200}, and for a quarter of the decodes that converge after >= 1 iterations a second, fresh decode with a limit of 65536+i, 2^31-1, 2^31+7, 2^32-1, 2^32 or usize::MAX, which must converge identically; oracle = own syndrome over the returned word + the iteration-count clauses; non-trivial = sign pattern not a codeword and limit >= 1; inner evaluations = decodes",
+                rule: "all names from DecoderImplementation::value_variants() x generated (H, LLR, limit): H 1..=8 x 2..=14 (thorough sub-check 'large' up to 40x120) with every row weight >= 2 in six classes (sparse, one dense row, duplicate rows, columns shared by all rows = high degree, medium, any); LLR vectors by class (free components incl. the special catalogue: +-0, subnormal, 1e-30, 1e30, 8-bit rounding boundaries +-1ulp, 12.5, 14.5, 15.875; noisy codeword of H from an own null-space basis; exact codeword; all-special; punctured zero block; extremes); limit in {0,1,2,3,5,10,30,200}; a third of the decodes followed by a second call on the same decoder object (limit 0, 1, 3 or 7) judged by the same clauses; and for a quarter of the decodes that converge after >= 1 iterations a second, fresh decode with a limit of 65536+i, 2^31-1, 2^31+7, 2^32-1, 2^32 or usize::MAX, which must converge identically; oracle = own syndrome over the returned word + the iteration-count clauses; non-trivial = sign pattern not a codeword and limit >= 1; inner evaluations = decodes",
                 cases: |t| t.pick(100_000, 3_000_000),
                 strategy: |_| dec_case(8, 14),
                 check,
